@@ -150,7 +150,8 @@ CLAIMS['C15'] = dict(
          'are exact. The stage-1 long-descriptor walk (PL1&0 regime) is decided for every input address, TTBR0/1, EPD0/1, '
          'security state and three 64-bit descriptors per (T0SZ, T1SZ) pair (7 pairs quick, all 64 thorough): TTBR / start level '
          'selection, descriptor address per level, fault level, block / page output address, hierarchical attribute bits and '
-         'result fields; likewise the Hyp regime (HTTBR / HTCR.T0SZ). The stage-2 regime of that walk is judged on loop structure only.',
+         'result fields; likewise the Hyp regime (HTTBR / HTCR.T0SZ) and the stage-2 regime (VTTBR / VTCR.T0SZ, SL0; 40-bit IPA). '
+         'The composition of the two stages (SecondStageTranslate, CheckPermissionS2) is not decided.',
     note='Trusted: CPython ast; references coded in sa/props/c15.py from the ARM ARM; stage 2 and big-endian descriptor '
          'fetch not in play; hub / translation results symbolic.')
 
